@@ -443,3 +443,41 @@ for meth in ("__rmul__", "__mul__"):
         c.ensures("all([near(r, x * other) for r, x in zip(elems(result.magnitude.value), xs)])", "values-scaled")
         c.ensures("len(elems(result.magnitude.error)) == 3 and all([near(r, e * absv(other)) for r, e in zip(elems(result.magnitude.error), es)])", "each-uncertainty-scaled-by-the-absolute-number")
         c.no_raise()
+
+
+# ---- the augmented forms  q += r,  q -= r: the same sums and the same refusals as  q + r,  q - r; the object that q named before keeps
+#      its value (the statement binds q to the result) ---------------------------------------------------------------------------------------
+AUG_OK = [("m", "c:m", 0.01), ("k:m", "m", 0.001), ("s", "min", 60.0), ("J", "erg", 1e-7)]
+AUG_BAD = [("s", "Hz"), ("Ohm", "S"), ("m", "m^-1"), ("J", "erg^-1"), ("m", "s"), ("rad", None)]
+
+
+for op in ("+", "-"):
+    @contract(f"{Q}.value", ["C06", "C07"], name=f"Quantity.value[after-augmented-{'sum' if op == '+' else 'difference'}]")
+    def _(c, op=op):
+        c.bound = "the listed unit pairs; both numbers symbolic"
+        for ua, ub, f in AUG_OK:
+            def pre(bd, ua=ua, ub=ub, f=f):
+                a, b = bd.new(Q, bd.real("a"), U.render(T(ua))), bd.new(Q, bd.real("b"), U.render(T(ub)))
+                av, bv = bd.getattr(bd.getattr(a, "magnitude"), "value"), bd.getattr(bd.getattr(b, "magnitude"), "value")
+                r, exc = bd.aug_catching(op, a, b)
+                bd.assume(exc is None)
+                return dict(args=[r, U.render(T(ua))], env=dict(a=av, b=bv, f=f, qa=a, qb=b, r=r))
+            c.scenario(f"{ua} {op}= {ub}", pre)
+        c.ensures(f"near(result, a {op} b * f)", "base-value-is-the-sum" if op == "+" else "base-value-is-the-difference")
+        c.ensures("qa.magnitude.value == a and qb.magnitude.value == b and not same_object(r, qa)", "the-objects-named-before-keep-their-values")
+        c.no_raise()
+
+    @contract(f"{Q}.value", ["C06"], name=f"Quantity.value[after-refused-augmented-{'sum' if op == '+' else 'difference'}]")
+    def _(c, op=op):
+        c.bound = "the listed pairs of different (also reciprocal) dimensions and an angle with a plain number"
+        for ua, ub in AUG_BAD:
+            def pre(bd, ua=ua, ub=ub):
+                a = bd.new(Q, bd.real("a"), U.render(T(ua)))
+                b = bd.new(Q, bd.real("b"), U.render(T(ub))) if ub else bd.real("b")
+                av = bd.getattr(bd.getattr(a, "magnitude"), "value")
+                r, exc = bd.aug_catching(op, a, b)
+                return dict(args=[a, U.render(T(ua))], env=dict(a=av, refused=exc is not None))
+            c.scenario(f"{ua} {op}= {ub or 'number'}", pre)
+        c.ensures("refused", "refused-like-the-binary-operator")
+        c.ensures("result == a", "left-operand-keeps-its-value")
+        c.no_raise()
